@@ -36,7 +36,7 @@ man = {
     "hooks": {
         "guard": "cargo feature fuellabs_sway_verif (declared default-off in sway-core, sway-ir, forc-pkg, forc-util, forc-test, sway-lsp, swayfmt)",
         "enable": "the harness crate /verif/harness depends on the /repo crates by path with features = [\"fuellabs_sway_verif\"]; cargo build --offline in /verif/harness",
-        "baseline_off_cmd": "cd /repo && cargo nextest run --workspace --no-fail-fast --test-threads 8 --offline || cargo test --workspace --no-fail-fast --offline",
+        "baseline_off_cmd": "cd /repo && cargo nextest run --workspace --no-fail-fast --tool-config-file pb:/w/lib/nextest.toml --profile pb --test-threads 8 --offline  (fallback: cargo test --workspace --no-fail-fast --offline) — the BASELINE.json command unchanged: the feature fuellabs_sway_verif is off unless a crate is built through /verif/harness",
         "source_commits": [l.strip() for l in os.popen("git -C /repo log --format='%h %s' 123f9c2..HEAD").read().splitlines() if "verif hooks" in l],
         "add_only": True,
     },
